@@ -1303,6 +1303,7 @@ class Evaluator:
             g.prog, g.fn = self.prog, pf
             g.events, g.loops, g.params, g.unknown_stmts = [], [], {}, []
             g._guards, g._loops, g._seq, g.closure_env, g.self_name, g.shape_decl = [], [], 0, {}, None, {}
+            g.cur_fn, g._inline_stack, g.inlined = pf, [], []
             term = g.expr(node, {})
             dummy = Ctx(self, pf, g, {}, None)
             v = self.eval(term, dummy)
